@@ -130,6 +130,13 @@ func init() {
 				js = append(js, &Job{Pkg: pkgRunner, Func: "VerifC19Formats", Args: []int64{f, sh}, Timeout: 10 * time.Minute})
 			}
 		}
+		longs := []int64{4095, 4096, 4097, 5000}
+		if tier == "thorough" {
+			longs = append(longs, 8191, 8192, 8193, 10000)
+		}
+		for _, n := range longs {
+			js = append(js, &Job{Pkg: pkgOutput, Func: "VerifC19Long", Args: []int64{n}, MaxLen: 20000, Timeout: 12 * time.Minute})
+		}
 		if tier == "thorough" {
 			pref(3, 3, 1)
 			pref(2, 4, 1)
@@ -143,14 +150,15 @@ func init() {
 		return js
 	}
 	register(&PropSpec{ID: "C19", Jobs: c19jobs,
-		Covers: []string{"C19.several-lines", "C19.more-lines-than-writes", "C19.raw-forwarded", "C19.format-run-completed-without-crash", "C19.skipped-task-under-format", "C19.before-hook-failed-under-format"},
+		Covers: []string{"C19.several-lines", "C19.more-lines-than-writes", "C19.long-line-checked", "C19.raw-forwarded", "C19.format-run-completed-without-crash", "C19.skipped-task-under-format", "C19.before-hook-failed-under-format"},
 		Bounds: map[string]interface{}{
-			"quick":    "(b) a task with optional condition and before hook run through the real TaskRunner under raw / prefixed / cockpit with symbolic outcomes: same commands, same recorded result, no panic. (a) prefixed: 2 Write calls of 0..3 bytes, every byte symbolic over all values except ESC (0x1b) and 0xc2; and 3 calls of 0..2 bytes over {a,b,CR,LF}; then WriteFooter. raw: 2 calls of 0..2 arbitrary bytes",
-			"thorough": "prefixed: 3 calls x 0..3 bytes and 2 calls x 0..4 bytes (any byte except ESC/0xc2), 4 calls x 0..2 bytes over {a,b,CR,LF}; raw: 3 calls x 0..3 bytes",
+			"quick":    "(b) a task with optional condition and before hook run through the real TaskRunner under raw / prefixed / cockpit with symbolic outcomes: same commands, same recorded result, no panic. (a) prefixed: 2 Write calls of 0..3 bytes, every byte symbolic over all values except ESC (0x1b) and 0xc2; and 3 calls of 0..2 bytes over {a,b,CR,LF}; then WriteFooter. raw: 2 calls of 0..2 arbitrary bytes. Long lines: one line of 4095, 4096, 4097 and 5000 bytes (around bufio.Writer's buffer size) in one Write call, first / middle / last byte symbolic, the rest a concrete filler, optionally after a short unterminated chunk, optionally terminated: reaches the destination in ONE write, complete",
+			"thorough": "long lines of 8191, 8192, 8193 and 10000 bytes as well; prefixed: 3 calls x 0..3 bytes and 2 calls x 0..4 bytes (any byte except ESC/0xc2), 4 calls x 0..2 bytes over {a,b,CR,LF}; raw: 3 calls x 0..3 bytes",
 		},
-		Outside:     []string{"lines longer than bufio.Writer's 4096-byte buffer", "ANSI escape sequences (ansiRegexp.ReplaceAllLiteral is modelled as the identity, which is exact only for inputs without ESC / U+009B; such bytes are excluded by assumption)", "interleaving of concurrent tasks: each task owns its decorator and every line reaches the sink in one Write call (asserted), so the concurrent claim follows if the sink's Write is atomic - assumed", "the spinner (briandowns/spinner) and its goroutine: stubbed; its lock ordering against the cockpit mutex is therefore not analysed"},
+		Outside:     []string{"long lines of other lengths than the ones listed, or with more than three non-filler bytes, or split over several Write calls", "ANSI escape sequences (ansiRegexp.ReplaceAllLiteral is modelled as the identity, which is exact only for inputs without ESC / U+009B; such bytes are excluded by assumption)", "interleaving of concurrent tasks: each task owns its decorator and every line reaches the sink in one Write call (asserted), so the concurrent claim follows if the sink's Write is atomic - assumed", "the spinner (briandowns/spinner) and its goroutine: stubbed; its lock ordering against the cockpit mutex is therefore not analysed"},
 		Assumptions: []string{"fmt.Fprintf(dst, \"%s: %s\\r\\n\", name, p) is modelled as one dst.Write of the concatenation", "aurora.Cyan is presentation only (passes the name through)", "real SSA of bufio.ScanLines, bufio.Writer, bytes.IndexByte (intrinsic, branch-free) is executed"},
 		Replay: map[string]*ReplaySpec{"*": {PkgDir: "pkg/output", File: "C19_replay_test.go", Test: "TestVerifReplayC19"},
+			"VerifC19Long":    {PkgDir: "pkg/output", File: "C19_replay_test.go", Test: "TestVerifReplayC19Long"},
 			"VerifC19Formats": {PkgDir: "pkg/runner", File: "C19_formats_replay_test.go", Test: "TestVerifReplayC19Formats"}}})
 
 	c07jobs := func(tier string) []*Job {
@@ -206,10 +214,10 @@ func init() {
 	register(&PropSpec{ID: "C09", Jobs: c09jobs,
 		Covers: []string{"C09.command-saw-environment", "C09.two-levels-define-the-name", "C09.dir-checked"},
 		Bounds: map[string]interface{}{
-			"quick":    "one name defined at every subset of the six levels (64 subsets as stages, 32 as direct runs), each level's value an independent symbolic member of {a, m, z} (so higher levels sort below, equal to and above lower ones) and, as stages, each level's value 2 ARBITRARY printable bytes (every order relation, '=' inside values included); one unrelated parent variable; directories: every subset of stage/task/context dir, direct and as a stage, for the before hook, the command and the after hook",
+			"quick":    "one name defined at every subset of the six levels (64 subsets as stages, 32 as direct runs), each level's value an independent symbolic member of {a, m, z} (so higher levels sort below, equal to and above lower ones) and, as stages, each level's value 2 ARBITRARY printable bytes (every order relation, '=' inside values included); one unrelated parent variable; directories: every subset of stage/task/context dir, direct and as a stage, given literally or as a template over a task variable, for the before hook, the command and the after hook",
 			"thorough": "additionally values of 1 and of 3 arbitrary printable bytes",
 		},
-		Outside:     []string{"how mvdan.cc/sh exports the Environ to child processes", "template-valued directories (utils.RenderString stubbed as identity)", "values longer than 3 bytes or with non-printable bytes", "the env_file parser (utils.ReadEnvFile stubbed to return the map; its crashes are C15)"},
+		Outside:     []string{"how mvdan.cc/sh exports the Environ to child processes", "directory templates other than a leading reference to one task variable (utils.RenderString is a model that substitutes a leading {{.D}}; the real text/template engine runs in the native replay only)", "values longer than 3 bytes or with non-printable bytes", "the env_file parser (utils.ReadEnvFile stubbed to return the map; its crashes are C15)"},
 		Assumptions: []string{"stubs: os.Environ, os.Getwd, utils.ReadEnvFile, utils.RenderString (identity), mvdan syntax.Parser.Parse and interp.New/StdIO/Runner.Run (records Env and Dir)", "executed for real: config.buildTask/buildPipeline/buildContext, TaskRunner.Run, TaskCompiler, Scheduler.Schedule/runStage (thread mode), DefaultExecutor.Execute, utils.ConvertEnv, mvdan expand.ListEnviron + listEnviron.Get", "sort.Strings modelled as a compare-exchange network over str.<"},
 		Replay:      map[string]*ReplaySpec{"*": {PkgDir: "internal/config", File: "C09_replay_test.go", Test: "TestVerifReplayC09"}}})
 
@@ -501,16 +509,18 @@ func init() {
 			for sh := int64(0); sh < 6; sh++ {
 				js = append(js, &Job{Pkg: pkgConfig, Func: "VerifC15Grammar", Args: []int64{sh}, Timeout: 20 * time.Minute, MaxSteps: 500000000})
 			}
+			js = append(js, &Job{Pkg: pkgMain, Func: "VerifC15Draw", Timeout: 10 * time.Minute})
 			return js
 		},
-		Covers: []string{"C15.import-shape-loaded", "C15.import-shape-rejected-with-an-error", "C15.definition-built", "C15.odd-definition-rejected-with-an-error", "C15.env-file-read", "C15.env-file-rejected-with-an-error", "C15.grammar-built", "C15.grammar-rejected"},
+		Covers: []string{"C15.import-shape-loaded", "C15.import-shape-rejected-with-an-error", "C15.definition-built", "C15.odd-definition-rejected-with-an-error", "C15.env-file-read", "C15.env-file-rejected-with-an-error", "C15.grammar-built", "C15.grammar-rejected", "C15.draw-checked", "C15.draw.structure-rejected"},
 		Bounds: map[string]interface{}{
-			"quick":    "taskctl's OWN loading code on the shapes the parsers can hand it: (i) the value under `import` = null, string, int, bool, list of strings, list with an int / null / nested list, string-keyed map, interface-keyed map; (ii) a definition with a null task / context / stage / watcher entry, a task whose env_file is missing, `dir` on a pipeline-typed stage, a stage naming neither or both of task and pipeline, a task without command, a pipeline without stages, no tasks section; (ii') a grammar of definitions: task t2 in 6 shapes (null, empty, null variation, unknown context + empty lists, renamed with variations/condition/dir, sound) x context c2 null/empty/absent x pipeline p2 null/empty/sound x two stages of p1 each in 8 shapes (null, empty, task, task with name+depends_on+dir+env, pipeline with dir+condition, task AND pipeline, name only, self-reference) x watcher null / unknown task / odd lists / sound = 13 824 definitions, then the fields the list/show/graph/validate commands read are walked; (iii) env files of two lines over {A=1, A, A=1=2, =, empty, =x, # comment}, env file missing. Any reachable panic (nil dereference, failed type assertion, index out of range) is a violation",
+			"quick":    "taskctl's OWN loading code on the shapes the parsers can hand it: (i) the value under `import` = null, string, int, bool, list of strings, list with an int / null / nested list, string-keyed map, interface-keyed map; (ii) a definition with a null task / context / stage / watcher entry, a task whose env_file is missing, `dir` on a pipeline-typed stage, a stage naming neither or both of task and pipeline, a task without command, a pipeline without stages, no tasks section; (ii') a grammar of definitions: task t2 in 6 shapes (null, empty, null variation, unknown context + empty lists, renamed with variations/condition/dir, sound) x context c2 null/empty/absent x pipeline p2 null/empty/sound x two stages of p1 each in 8 shapes (null, empty, task, task with name+depends_on+dir+env, pipeline with dir+condition, task AND pipeline, name only, self-reference) x watcher null / unknown task / odd lists / sound = 13 824 definitions, then the fields the list/show/graph/validate commands read are walked; (iii) env files of two lines over {A=1, A, A=1=2, =, empty, =x, # comment}, env file missing; (iv) the graph command: two pipelines of two stages each, every stage one of task / pipeline p1 / pipeline p2 / task AND p1 / task AND p2 (625 inclusion structures): whatever the real buildFromDefinition accepts is drawn by the real draw() of the graph command, which must return (the dot library is replaced by counting stubs). Any reachable panic (nil dereference, failed type assertion, index out of range) is a violation",
 			"thorough": "same",
 		},
-		Outside:     []string{"panics, hangs or errors INSIDE yaml.v2, go-toml, encoding/json, mapstructure, mergo, text/template: not encodable; arbitrary bytes, truncation, anchors, invalid UTF-8 are therefore outside", "the list / show / graph / validate commands on the loaded configuration", "bounded time (the import closure's termination is C17)"},
+		Outside:     []string{"panics, hangs or errors INSIDE yaml.v2, go-toml, encoding/json, mapstructure, mergo, text/template: not encodable; arbitrary bytes, truncation, anchors, invalid UTF-8 are therefore outside", "the list / show / validate commands on the loaded configuration (text/template reflection; they read the fields walked in (ii') without recursion) and the rendering of the graph by emicklei/dot", "bounded time (the import closure's termination is C17)"},
 		Assumptions: []string{"stubs: file system, Loader.readFile (returns the decoded shape), mergo.Merge, watch.NewWatcher, utils.ReadEnvFile (for (ii)), os.Open and bufio.Scanner (for (iii): the scanner yields the given lines)"},
-		Replay:      map[string]*ReplaySpec{"*": {PkgDir: "internal/config", File: "C15_replay_test.go", Test: "TestVerifReplayC15"}}})
+		Replay: map[string]*ReplaySpec{"*": {PkgDir: "internal/config", File: "C15_replay_test.go", Test: "TestVerifReplayC15"},
+			"VerifC15Draw": {PkgDir: "cmd/taskctl", File: "C15_draw_replay_test.go", Test: "TestVerifReplayC15Draw"}}})
 
 	register(&PropSpec{ID: "C20",
 		Jobs: func(tier string) []*Job {
@@ -520,19 +530,24 @@ func init() {
 				{Pkg: pkgWatch, Func: "VerifC20Paths", Args: []int64{2, 0}, Timeout: 10 * time.Minute},
 				{Pkg: pkgWatch, Func: "VerifC20Events", Args: []int64{1}, Timeout: 10 * time.Minute},
 				{Pkg: pkgWatch, Func: "VerifC20Events", Args: []int64{2}, Timeout: 10 * time.Minute},
-				{Pkg: pkgWatch, Func: "VerifC20Loop", Args: []int64{1, 0}, Timeout: 10 * time.Minute},
-				{Pkg: pkgWatch, Func: "VerifC20Loop", Args: []int64{2, 0}, Timeout: 12 * time.Minute},
+				{Pkg: pkgWatch, Func: "VerifC20Loop", Args: []int64{1, 0, 99}, Timeout: 10 * time.Minute},
+			}
+			// two events: the subscribed set fixed per job (none listed = all, write only, create+chmod, all but write)
+			for _, m := range []int64{0, 2, 17, 29} {
+				js = append(js, &Job{Pkg: pkgWatch, Func: "VerifC20Loop", Args: []int64{2, 0, m}, Timeout: 12 * time.Minute})
 			}
 			if tier == "thorough" {
 				js = append(js, &Job{Pkg: pkgWatch, Func: "VerifC20Events", Args: []int64{3}, Timeout: 30 * time.Minute},
-					&Job{Pkg: pkgWatch, Func: "VerifC20Loop", Args: []int64{1, 1}, Timeout: 90 * time.Minute})
+					&Job{Pkg: pkgWatch, Func: "VerifC20Loop", Args: []int64{2, 0, 99}, Timeout: 90 * time.Minute},
+					&Job{Pkg: pkgWatch, Func: "VerifC20Loop", Args: []int64{1, 1, 0}, Timeout: 90 * time.Minute},
+					&Job{Pkg: pkgWatch, Func: "VerifC20Loop", Args: []int64{1, 1, 2}, Timeout: 90 * time.Minute})
 			}
 			return js
 		},
 		Covers: []string{"C20.paths-checked", "C20.some-path-observed", "C20.handler-returned", "C20.unsubscribed-event", "C20.subscribed-event", "C20.loop-checked", "C20.loop.subscribed-event"},
 		Bounds: map[string]interface{}{
-			"quick":    "selection: up to 2 include and 2 exclude patterns over 3 candidate paths with the whole pattern x path match relation symbolic (512 relations per shape, decided per path by the solver); events: every subset of the five event names subscribed (none = all), 1..2 events of symbolic type handled by the real handler with the real TaskRunner (executor stubbed); the real Watcher.Run (registration of the selected paths, first run, polling loop, handler goroutines, Close) in thread mode with 1..2 events of symbolic type delivered through the fsnotify channel while earlier runs may still be in flight (commands that take time), preemption bound 0 (threads switch where they block, sleep or a command is running)",
-			"thorough": "3 events for the handler; the loop with 1 event and preemption bound 1 (about 1.2 million schedules x inputs)",
+			"quick":    "selection: up to 2 include and 2 exclude patterns over 3 candidate paths with the whole pattern x path match relation symbolic (512 relations per shape, decided per path by the solver); events: every subset of the five event names subscribed (none = all), 1..2 events of symbolic type handled by the real handler with the real TaskRunner (executor stubbed); the real Watcher.Run (registration of the selected paths, first run, polling loop, handler goroutines, Close) in thread mode with events of symbolic type delivered through the fsnotify channel while earlier runs may still be in flight (commands that take time): 1 event with every subscribed set, 2 events with the subscribed sets {none listed = all}, {write}, {create, chmod}, {all but write}; preemption bound 0 (threads switch where they block, sleep or a command is running); besides the per-event obligations, the state of the Watcher object (fields, fill level of the channels and maps they refer to) after the events were served equals its state before them - the inductive step behind \"keeps serving later events\"",
+			"thorough": "3 events for the handler; the loop with 2 events and every subscribed set, and with 1 event and preemption bound 1 for two subscribed sets",
 		},
 		Outside:     []string{"doublestar's pattern semantics and the file-system walk (Glob / PathMatch are replaced by the symbolic relation)", "fsnotify / inotify delivery, combined Op bit-masks", "more than 2 events in the loop harness; schedules of the loop with more than one preemption"},
 		Assumptions: []string{"stubs: doublestar.Glob / PathMatch, fsnotify.NewWatcher / Add / Close (Close closes both channels, as the real one does), executor (in the loop harness a command starts, yields, and is interrupted when its context was cancelled meanwhile)", "time.Sleep: the engine's polling semantics (a poller runs again when something changed or nothing else can run; pollers take turns)"},
